@@ -340,7 +340,9 @@ func (s *vC03Sys) observe(h []string) {
 	}
 }
 
-func (s *vC03Sys) Key() string {
+func (s *vC03Sys) Key() string { return s.keyCanon() + "#deep" + vDeepHash(s.idx) }
+
+func (s *vC03Sys) keyCanon() string {
 	ids := []int{}
 	for id := range s.docs {
 		ids = append(ids, int(id))
